@@ -357,8 +357,9 @@ class ControlParser(ArgumentParser):
             flag = None
             long = f'--{parameter.name.replace("_", "-")}'
             # We try to generate a short version (flag) for the argument.
+            # (Never `-h` though; that one is taken by the help option.)
             letter = parameter.name[0]
-            if letter not in self._flags:
+            if letter not in self._flags and letter != "h":
                 flag = f"-{letter}"
                 self._flags.add(letter)
             elif letter.upper() not in self._flags:
